@@ -184,4 +184,31 @@ example : powmSpec 3 0 (-1) = some 0 ∧ powmSpec 3 (-1) 7 = some 5 ∧ powmSpec
 example : (mpz_powm 3 (-1) 7).value? = some 5 ∧ (mpz_powm 2 (-1) 6) = .div0 ∧ (mpz_powm (-10) 1 7).value? = some 4 := by
   decide +kernel
 
+
+/-- powm.c:196-268 — CRT recombination for an even modulus `m = 2^t · modd`, `modd` odd, `t ≥ 1` low zero
+    bits given as `ncnt` limbs of which the top one holds `cnt` bits when `cnt ≠ 0`
+    (`t = tbits ncnt cnt`, any 2-adic valuation including whole zero limbs).
+    From the odd-part result `rodd = b^e mod modd` (mpn_powm's output) the code computes
+    `r2 = b^e mod 2^t` (mpn_powlo, or 0 through one of the two even-base shortcuts),
+    `x = (r2 − rodd)·modd⁻¹ mod 2^t` (mpn_binvert, mpn_sub, mpn_mullow_n, mask) and `rp = x·modd + rodd`.
+    The theorem: `rp[0..n)` holds exactly `b^e mod m`, with `n` proper limbs — for every base (odd,
+    even, shorter or longer than `ncnt` limbs) and every normalised exponent.
+    The two callees enter through their specifications (`hpowlo`, `hbinv`). -/
+theorem even_modulus_crt (n : Nat) (bp ep modd rodd : List Nat) (nodd ncnt cnt : Nat)
+    (hbp : Limbs bp) (hbne : bp ≠ []) (hep : Norm ep) (hepne : ep ≠ [])
+    (hmodd : Limbs modd) (hml : modd.length = nodd) (hodd : val modd % 2 = 1)
+    (hncnt : 1 ≤ ncnt) (hcnt : cnt < 64) (hn1 : nodd ≤ n) (hn2 : n ≤ nodd + ncnt)
+    (hfit : 2 ^ tbits ncnt cnt * val modd < B ^ n) (hsz : ncnt * 64 < B)
+    (hrodd : rodd = toLimbs nodd (val bp ^ val ep % val modd))
+    (hpowlo : ∀ bq, Limbs bq → val (mpn_powlo bq ep ncnt) = val bq ^ val ep % B ^ ncnt)
+    (hbinv : ∀ u, u % 2 = 1 → (binvert u ncnt * u) % B ^ ncnt = 1) :
+    val (powmEven n bp ep modd nodd ncnt cnt rodd) = val bp ^ val ep % (2 ^ tbits ncnt cnt * val modd) ∧
+    Limbs (powmEven n bp ep modd nodd ncnt cnt rodd) ∧ (powmEven n bp ep modd nodd ncnt cnt rodd).length = n :=
+  powmEven_correct n bp ep modd rodd nodd ncnt cnt hbp hbne hep hepne hmodd hml hodd hncnt hcnt hn1 hn2 hfit hsz
+    hrodd hpowlo hbinv
+
+-- non-vacuity: m = 12 = 2^2·3, b = 5, e = 3: 125 mod 12 = 5;  m = 2^64·3 (whole zero limb), b = 7, e = 2
+example : powmEven 1 [5] [3] [3] 1 1 2 (toLimbs 1 (5 ^ 3 % 3)) = [5 ^ 3 % 12] := by decide +kernel
+example : powmEven 2 [7] [2] [3] 1 1 0 (toLimbs 1 (7 ^ 2 % 3)) = [49, 0] ∧ tbits 1 0 = 64 := by decide +kernel
+
 end Mpir.Powm
